@@ -305,8 +305,24 @@ def _r164(ctx: Ctx) -> None:
 
         def iterate(self, it, value, node):
             if value is TOP:
-                return []            # bootstrap loops are not needed for this rule
+                return [Sym('row')]      # one abstract bootstrap sample / one abstract row
             return NOT_HANDLED
+
+        def attr(self, it, obj, name, node):
+            if isinstance(obj, _Rng) and name in ('beta', 'choice'):
+                return _CallR(lambda *a, _n=name, **k: (calls.append((_n, a, k)), TOP)[1])
+            return NOT_HANDLED
+    _base_call = HFss.call
+
+    def _call2(self, it, func, args, kwargs, node, env):
+        if isinstance(func, Ext) and func.name == 'numpy.random.default_rng':
+            return _Rng()
+        if isinstance(func, Ext) and func.name in ('builtins.int', 'builtins.float') and args and isinstance(args[0], CT):
+            return args[0]
+        if isinstance(func, Ext) and func.name == 'builtins.range':
+            return TOP
+        return _base_call(self, it, func, args, kwargs, node, env)
+    HFss.call = _call2
     it = Interp(m, HFss())
     df = DF('df_filt')
     PL, PR = Sym('p_left'), Sym('p_right')
@@ -339,11 +355,67 @@ def _r164(ctx: Ctx) -> None:
     okc = cond is not None and (repr(cond) in want_cond or _cond_is_closed_interval(cond, er, PL, PR))
     ctx.ob('R16.4', site_of(ami, ffp), 'fit uses the rows with p_left <= error_rate <= p_right', okc,
            f'rows selected by {cond!r}', key='fit_fss_params|truncate', facts=repr(cond))
+    # bootstrap: the Beta posterior of each row uses that row's own counts, read from the fitted (truncated) table
+    betas = [c for c in good[0].value if c[0] == 'beta']
+    ctx.need(betas, 'R16.4', site_of(ami, ffp), 'fit_fss_params: rng.beta(...) of the bootstrap not found')
+    a_, b_ = betas[0][1][:2]
+    ctx.need(a_ is not TOP and b_ is not TOP, 'R16.4', site_of(ami, ffp), 'fit_fss_params: arguments of rng.beta not understood')
+    fa = [_frame_of(x) for x in _leaf_cols(a_)]
+    fb = [_frame_of(x) for x in _leaf_cols(b_)]
+    frames = {repr(f) for f, c in fa + fb if f is not None}
+    cols_a = {c for f, c in fa}
+    cols_b = {c for f, c in fb}
+    okb = frames == {repr(fp)} and cols_a == {'n_fail'} and cols_b == {'n_trials', 'n_fail'}
+    ctx.ob('R16.4', site_of(ami, ffp), 'bootstrap resamples each fitted row from its own (n_fail, n_trials) of the truncated table',
+           okb, f'rng.beta({a_!r}, {b_!r}); the fit uses rows of {fp!r}: counts taken from another table (or other columns) '
+                f'pair the wrong counts with the fitted points', key='fit_fss_params|bootstrap-counts',
+           facts={'alpha': repr(a_), 'beta': repr(b_)})
     resc = [c for c in good[0].value if c[0] == 'rescale']
     okr = len(resc) == 1 and isinstance(resc[0][1][0], list) and resc[0][1][0] == [pl, dl] \
         and list(resc[0][1][1:]) == [TOP] or (len(resc) == 1 and resc[0][1][0] == [pl, dl])
     ctx.ob('R16.4', site_of(ami, ffp), 'rescaled column is rescale_prob((p, d), *fitted parameters)', okr,
            f'rescale_prob called with {resc!r}', key='fit_fss_params|rescaled')
+
+
+class _Rng:
+    pass
+
+
+def _leaf_cols(t):
+    from ..dfdomain import CT
+    out = []
+
+    def rec(x):
+        if isinstance(x, CT):
+            if x.op in ('add', 'sub', 'mul', 'div'):
+                for a in x.args:
+                    rec(a)
+            else:
+                out.append(x)
+    rec(t)
+    return out
+
+
+class _CallR:
+    def __init__(self, f):
+        self.f = f
+
+    def pqv_call(self, *a, **k):
+        return self.f(*a, **k)
+
+
+def _frame_of(t):
+    """the data frame a column term is read from (None if not a column read)"""
+    from ..dfdomain import CT, DF
+    seen = 0
+    while isinstance(t, CT) and seen < 12:
+        seen += 1
+        if t.op == 'col':
+            return t.args[0], t.args[1]
+        if not t.args:
+            return None, None
+        t = t.args[0]
+    return None, None
 
 
 def _cond_is_closed_interval(cond, er, lo, hi) -> bool:
@@ -367,9 +439,11 @@ def run(ctx: Ctx) -> None:
     ctx.rule('R16.1', 'threshold and interval = median and q/1-q quantiles of one bootstrap column', floor=5)
     ctx.rule('R16.2', 'rows reach the order-sensitive steps in canonical order; bootstrap seeded', floor=6)
     ctx.rule('R16.3', 'fit_status success only for a valid fit inside the data range; fit_found = (status == success)', floor=15)
-    ctx.rule('R16.4', 'fit function and its siblings are the documented ansatz with parameters in fit order', floor=10)
+    ctx.rule('R16.4', 'fit function and its siblings are the documented ansatz with parameters in fit order; fit and bootstrap read one table', floor=11)
     ctx.trust('scipy.optimize.curve_fit, numpy median/quantile, pandas sort semantics; sympy (python3-vt)')
     _r161(ctx)
+    from .c06 import class_mutable_rule
+    class_mutable_rule(ctx, 'R16.2', ['Analysis'])
     _r162(ctx)
     _r163(ctx)
     _r164(ctx)
